@@ -329,7 +329,7 @@ def rule_replace(ctx, cd):
         first = None
         for n2, e in p.ph:
             s = e if isinstance(e, str) else xs(e)
-            if s.startswith("_deserialize_integer(t.length_field_type, (reference + '.count')"):
+            if re.match(r"_deserialize_integer\(t\.length_field_type, \(reference (\+|~) '\.count'\)", s):
                 first = n2
         ok = bad is None and first is not None
         ctx.ob(R, tc.rel, "c: count is assigned from the length prefix", ok, "" if ok else "count is accumulated")
